@@ -229,7 +229,8 @@ def run_check(pid, tier, seed, extra):
         print(f'INCONCLUSIVE property={pid} reason=no check registered')
         return 2
     plan = plans.PLANS[pid]
-    rundir = os.path.join(VERIF, 'runs', f'{pid}-{tier}-{seed}')
+    suffix = '' if REPO == '/repo' else '-' + hashlib.sha1(REPO.encode()).hexdigest()[:8]
+    rundir = os.path.join(VERIF, 'runs', f'{pid}-{tier}-{seed}{suffix}')
     if os.path.exists(rundir):
         shutil.rmtree(rundir)
     os.makedirs(rundir)
